@@ -61,12 +61,19 @@ def _len_ok(it, n: VInt):
         it.assume(z3.And(n.e >= 0, n.e < 2 ** 64))
 
 
+def okey(e):
+    """Key of a byte term in the origin table: its simplified form (terms travel through hex()/upper()/unhex() and value
+    constructors that simplify them, so the table is keyed by the normal form)."""
+    return z3.simplify(e).sexpr()
+
+
 def register(it, data: VBytes, value: V):
     if data.conc is None:
         it.enc_origins = getattr(it, "enc_origins", {})
-        it.enc_origins[data.e.sexpr()] = value
+        k = okey(data.e)
+        it.enc_origins[k] = value
         it.enc_origin_terms = getattr(it, "enc_origin_terms", {})
-        it.enc_origin_terms[data.e.sexpr()] = (data.e, value)
+        it.enc_origin_terms[k] = (data.e, value)
 
 
 def enc(it, v: V) -> VBytes:
@@ -179,7 +186,7 @@ def loads(it, data: V) -> V:
         except cbor2.CBORDecodeError:
             it.raise_(cbor2.CBORDecodeError, "decode error")
     origins = getattr(it, "enc_origins", {})
-    o = origins.get(data.e.sexpr())
+    o = origins.get(okey(data.e))
     if o is not None:
         return decoded_copy(o)
     # semantic lookup: the bytes are provably equal to a known encoding (e.g. stated by a precondition)
